@@ -534,10 +534,10 @@ class PowerBoundsCalculator(MetricCalculator[SystemBounds]):
         """
         timestamp = _MIN_TIMESTAMP
         loop_timestamp = _MIN_TIMESTAMP
-        inclusion_bounds_lower = 0.0
-        inclusion_bounds_upper = 0.0
-        exclusion_bounds_lower = 0.0
-        exclusion_bounds_upper = 0.0
+        inclusion_lower_parts: list[float] = []
+        inclusion_upper_parts: list[float] = []
+        exclusion_lower_parts: list[float] = []
+        exclusion_upper_parts: list[float] = []
 
         battery_sets = {
             self._bat_bats_map[battery_id] for battery_id in working_batteries
@@ -600,22 +600,38 @@ class PowerBoundsCalculator(MetricCalculator[SystemBounds]):
 
             timestamp = max(timestamp, loop_timestamp)
 
-            inclusion_bounds_lower += max(
-                aggregated_bat_bounds.inclusion_lower,
-                sum(bound.inclusion_lower for bound in inverter_bounds),
+            # The power distributor calculates the bounds it enforces from the same
+            # numbers, in another order.  `math.fsum` is exactly rounded, so both get
+            # the same result.
+            inclusion_lower_parts.append(
+                max(
+                    aggregated_bat_bounds.inclusion_lower,
+                    math.fsum(bound.inclusion_lower for bound in inverter_bounds),
+                )
             )
-            inclusion_bounds_upper += min(
-                aggregated_bat_bounds.inclusion_upper,
-                sum(bound.inclusion_upper for bound in inverter_bounds),
+            inclusion_upper_parts.append(
+                min(
+                    aggregated_bat_bounds.inclusion_upper,
+                    math.fsum(bound.inclusion_upper for bound in inverter_bounds),
+                )
             )
-            exclusion_bounds_lower += min(
-                aggregated_bat_bounds.exclusion_lower,
-                sum(bound.exclusion_lower for bound in inverter_bounds),
+            exclusion_lower_parts.append(
+                min(
+                    aggregated_bat_bounds.exclusion_lower,
+                    math.fsum(bound.exclusion_lower for bound in inverter_bounds),
+                )
             )
-            exclusion_bounds_upper += max(
-                aggregated_bat_bounds.exclusion_upper,
-                sum(bound.exclusion_upper for bound in inverter_bounds),
+            exclusion_upper_parts.append(
+                max(
+                    aggregated_bat_bounds.exclusion_upper,
+                    math.fsum(bound.exclusion_upper for bound in inverter_bounds),
+                )
             )
+
+        inclusion_bounds_lower = math.fsum(inclusion_lower_parts)
+        inclusion_bounds_upper = math.fsum(inclusion_upper_parts)
+        exclusion_bounds_lower = math.fsum(exclusion_lower_parts)
+        exclusion_bounds_upper = math.fsum(exclusion_upper_parts)
 
         if timestamp == _MIN_TIMESTAMP:
             return SystemBounds(
